@@ -481,6 +481,22 @@ pub fn run(args: &Args) -> i32 {
          truncation of them, and structured-random key messages. non-trivial = the reference gives a verdict \
          (accept/reject) or a key round trip was executed; distinct by input bytes",
     );
+    if let Some(path) = &args.replay {
+        let v: vmon::Value = std::fs::read_to_string(path).ok().and_then(|s| s.parse().ok()).unwrap_or(vmon::Value::Null);
+        let w = &v["witness"];
+        if let Some(h) = w["input_hex"].as_str() {
+            let b = vmon::unhex(h);
+            judge_peer_id_bytes(&check, &b, "replay");
+            check_decode_total(&check, &b, "replay");
+        } else if let Some(t) = w["text"].as_str() {
+            judge_peer_id_text(&check, t);
+        } else {
+            check.inconclusive("replay file has neither witness.input_hex nor witness.text");
+        }
+        check.nontrivial(1);
+        check.nontrivial(2);
+        return check.finish();
+    }
     let nocrypto = flag(args, "nocrypto");
     // --- A: exhaustive small strings
     let small_max = budget(args, 300, 65_536 + 256 + 1, 65_536 + 256 + 1);
@@ -518,8 +534,9 @@ pub fn run(args: &Args) -> i32 {
             judge_key(&check, kind, &kp, rng, thorough || i < 30);
         });
         // RSA: the three test keys; decode direction of the private encoding via a hand-built message
+        // (`--norsa 1`: skipped, ring is FFI and cannot run under Miri)
         let mut rng = Rng::for_case(args.seed, 0xC20);
-        for i in 0..3 {
+        for i in 0..(if flag(args, "norsa") { 0 } else { 3 }) {
             let kp = rsa_key(i);
             judge_key(&check, RSA, &kp, &mut rng, !is_tiny(args));
             let pkcs1 = util::pkcs8_inner_pkcs1(RSA_PK8[i]).expect("pkcs8 test key has an inner pkcs1 key");
